@@ -796,6 +796,21 @@ def parse_model(model: str, *, check_syntax: bool = True) -> List[Symbol]:
         else:
             symbols[name] = symbols.get(name, symbol).combine(symbol)
 
+    # Error if any variables take names that model instances reserve for
+    # solution tracking (classes with such variables cannot be instantiated)
+    reserved_names = [
+        s.name
+        for s in symbols.values()
+        if s.name in ('status', 'iterations')
+        and s.type in (Type.VARIABLE, Type.EXOGENOUS, Type.ENDOGENOUS, Type.PARAMETER, Type.ERROR)
+    ]  # fmt: skip
+
+    if reserved_names:
+        raise SymbolError(
+            'The following name(s) are reserved for solution tracking '
+            'and cannot be used for model variables: ' + ', '.join(reserved_names)
+        )
+
     return list(symbols.values()) + verbatim
 
 
